@@ -1233,7 +1233,11 @@ func (e *Entry) ApplyDeviate(deviateOpts ...DeviateOpt) []error {
 					}
 
 					if devSpec.Type != nil {
-						deviatedNode.Type = devSpec.Type
+						if deviatedNode.Kind != LeafEntry {
+							appendErr(fmt.Errorf("%s: tried to deviate the type of %s, which is neither a leaf nor a leaf-list", Source(e.Node), d.DeviatedPath))
+						} else {
+							deviatedNode.Type = devSpec.Type
+						}
 					}
 
 				case DeviationNotSupported:
